@@ -108,7 +108,9 @@ VARS_A = [
     V("p_str_m", "person", "str", "month", "dispatch"),
     V("p_int_d", "person", "int", "day", "dispatch"),
     V("p_int_w", "person", "int", "week"),
-    V("p_end_m", "person", "int", "month", end=[2018, 6, 30]),
+    V("p_end_m", "person", "int", "month", end=[2018, 6, 1]),      # ends on the first day of a month
+    V("p_end_d", "person", "float", "day", end=[2018, 12, 31]),
+    V("p_end_y", "person", "int", "year", "divide", end=[2019, 1, 1]),
     V("p_int_e", "person", "int", "eternity"),
     V("h_rent", "household", "int", "month"),
     V("h_size", "household", "float", "year", "divide"),
@@ -116,6 +118,8 @@ VARS_A = [
     V("h_kind", "household", "enum", "eternity"),
     V("h_since", "household", "date", "eternity"),
     V("h_name", "household", "str", "year"),
+    V("h_end_m", "household", "int", "month", end=[2018, 12, 15]),
+    V("h_end_d", "household", "bool", "day", "dispatch", end=[2019, 2, 28]),
 ]
 VARS_B = VARS_A + [
     V("c_fee", "club", "int", "year"),
@@ -849,6 +853,21 @@ def monday(rng):
 def gen_plan(rng, v):
     """Period keys usable for one variable in one document: nested, never fully covered."""
     u, rule = v["unit"], v["rule"]
+    if v["end"] and rng.random() < 0.75:
+        # around the end date: the period starting exactly on it is still an input, later ones are dropped
+        ey, em, ed = v["end"]
+        end = datetime.date(ey, em, ed)
+        if u == "day":
+            ds = [end + datetime.timedelta(days=k) for k in (-2, -1, 0, 1, 2)]
+            ps = [P("day", d.year, d.month, d.day) for d in ds if rng.random() < 0.7] or [P("day", ey, em, ed)]
+            if rule != "none" and rng.random() < 0.4:
+                ps.append(P("month", ey, em))
+            return ps
+        if u == "month":
+            ms = [(ey * 12 + em - 1 + k) for k in (-2, -1, 0, 1)]
+            return [P("month", m // 12, m % 12 + 1) for m in ms if rng.random() < 0.7] or [P("month", ey, em)]
+        if u == "year":
+            return [P("year", yy) for yy in (ey - 1, ey, ey + 1) if rng.random() < 0.7] or [P("year", ey)]
     y = rng.choice([2017, 2018, 2018, 2019, 2020])
     if u == "eternity":
         ps = [P("eternity")]
@@ -905,6 +924,8 @@ def gen_fields(rng, S, ent_key, plans, density=0.5):
     out = {}
     cands = [v for v in S.vars if v["ent"] == ent_key]
     rng.shuffle(cands)
+    if rng.random() < 0.35:
+        cands.sort(key=lambda v: not v["end"])       # variables with an end date first
     for v in cands[:rng.randint(0, 4)]:
         if v["name"] not in plans:
             plans[v["name"]] = gen_plan(rng, v)
@@ -988,6 +1009,8 @@ def gen_vars_doc(rng, S):
     n = rng.choice([1, 1, 2, 3, 4])
     cands = list(S.vars)
     rng.shuffle(cands)
+    if rng.random() < 0.35:
+        cands.sort(key=lambda v: not v["end"])
     doc = {}
     for v in cands[:rng.randint(1, 5)]:
         plan = gen_plan(rng, v)
@@ -1369,6 +1392,14 @@ def fixed_cases():
                                            "h2": {"parents": ["b"], "h_rent": {"2018-01": 7}}}}])
     # a person left out whose id is also the id of a declared group
     case("valid", "full", [{"persons": {"h1": {}, "b": {}, "c": {}}, "households": {"h1": {"parents": ["b", "c"]}}}])
+    # variables with an end date: the period before it, starting exactly on it, and after it
+    ends = {"p_end_d": {"2018-12-30": 20.0, "2018-12-31": 30.0, "2019-01-01": 40.0},
+            "p_end_m": {"2018-05": 4, "2018-06": 5, "month:2018-07": 6}}
+    case("valid", "full", [{"persons": {"a": ends, "b": {"p_end_d": {"day:2018-12-31": 3.0}}},
+                            "households": {"h": {"parents": ["a", "b"],
+                                                 "h_end_m": {"2018-12": 7, "2019-01": 8}}}}])
+    case("valid", "short", [{"persons": {"a": ends}, "household": {"parents": ["a"], "h_end_m": {"2018-12": 7}}}])
+    case("valid", "vars", [dict(ends)])
     # axes with a spelled period, in the short form
     big = {"persons": {"a": {"p_int_m": {"2018-01": 3}}, "b": {}, "c": {}},
            "household": {"parents": ["a"], "children": ["b", "c"]},
